@@ -20,7 +20,7 @@
 //! Rust (received = payload, after trimming for `$( )`; stream/atomicity laws for op sequences).
 
 use std::cell::{Cell, RefCell};
-use std::collections::VecDeque;
+use std::collections::{BTreeMap, VecDeque};
 use std::future::Future;
 use std::pin::Pin;
 use std::rc::Rc;
@@ -35,9 +35,9 @@ use yash_env::io::Fd;
 use yash_env::semantics::{ExitStatus, Field};
 use yash_env::system::concurrency::{ReadAll as _, Select as _, Sleep as _, WriteAll as _};
 use yash_env::system::r#virtual::fd_set::FdSet;
-use yash_env::system::r#virtual::{FileBody, Inode, PIPE_BUF, PIPE_SIZE, VirtualSystem};
+use yash_env::system::r#virtual::{FileBody, Inode, PIPE_BUF, PIPE_SIZE, SystemState, VirtualSystem};
 use yash_env::system::{
-    Close as _, Concurrent, Errno, Fcntl as _, FdSet as _, Mode, OfdAccess, Open as _, OpenFlag,
+    Close as _, Concurrent, Errno, Fcntl as _, FdSet as _, GetPid as _, Mode, OfdAccess, Open as _, OpenFlag,
     Pipe as _, Read as _, Select as _, Write as _,
 };
 use yash_env::waker::WakerSet;
@@ -650,7 +650,53 @@ fn run_xfer(ws: &[&str]) -> (String, String) {
 
 thread_local! {
     static PAYLOAD: RefCell<Vec<u8>> = const { RefCell::new(Vec::new()) };
+    static STATE: RefCell<Option<Rc<RefCell<SystemState>>>> = const { RefCell::new(None) };
+    static SNAPS: RefCell<BTreeMap<usize, String>> = const { RefCell::new(BTreeMap::new()) };
 }
+
+/// `fdsnap K` : records under key K the descriptor table of the calling process:
+/// `<fd>:f` (not a pipe), `<fd>:r<i>` / `<fd>:w<i>` (reading / writing end of the i-th distinct pipe in
+/// ascending descriptor order).  Writes nothing.
+fn fdsnap_main(env: &mut VEnv, args: Vec<Field>) -> BuiltinFuture<'_> {
+    let key: usize = args.first().and_then(|f| f.value.parse().ok()).unwrap_or(0);
+    let pid = env.system.getpid();
+    let text = STATE.with(|st| {
+        let st = st.borrow();
+        let Some(state) = st.as_ref() else { return "nostate".to_string() };
+        let state = state.borrow();
+        let Some(process) = state.processes.get(&pid) else { return "noproc".to_string() };
+        let mut pipes: Vec<*const RefCell<Inode>> = vec![];
+        let mut out = vec![];
+        for (fd, body) in process.fds() {
+            let ofd = body.open_file_description.borrow();
+            let inode = ofd.inode();
+            let is_fifo = matches!(inode.borrow().body, FileBody::Fifo { .. });
+            if is_fifo {
+                let ptr = Rc::as_ptr(inode);
+                let idx = match pipes.iter().position(|p| *p == ptr) {
+                    Some(i) => i,
+                    None => {
+                        pipes.push(ptr);
+                        pipes.len() - 1
+                    }
+                };
+                let kind = match (ofd.is_readable(), ofd.is_writable()) {
+                    (true, false) => "r",
+                    (false, true) => "w",
+                    _ => "x",
+                };
+                out.push(format!("{}:{}{}", fd.0, kind, idx + 1));
+            } else {
+                out.push(format!("{}:f", fd.0));
+            }
+        }
+        if out.is_empty() { "-".to_string() } else { out.join(",") }
+    });
+    SNAPS.with(|m| m.borrow_mut().insert(key, text));
+    Box::pin(async move { ExitStatus::SUCCESS.into() })
+}
+
+const PROLOGUES: [&str; 5] = ["", "exec <&-\n", "exec >&-\n", "exec <&- >&-\n", "exec 2>&-\n"];
 
 /// `gen [piece]` : writes the case's payload to standard output (`write_all`, whole or piecewise).
 fn gen_main(env: &mut VEnv, args: Vec<Field>) -> BuiltinFuture<'_> {
@@ -714,7 +760,7 @@ fn lcg(x: u64) -> u64 {
 fn build_script(
     src: &str,
     shape: &str,
-    var: bool,
+    kind: &str,
     data: &[u8],
     per: usize,
     seed: u64,
@@ -778,7 +824,11 @@ fn build_script(
             s = lcg(s);
         }
     }
-    Some(if var { format!("x=$( {x} )") } else { x })
+    Some(match kind {
+        "var" => format!("x=$( {x} )"),
+        "file" => format!("{{ {x}\n}} >/out"),
+        _ => x,
+    })
 }
 
 fn show_flow(x: &[u8]) -> String {
@@ -793,11 +843,17 @@ fn run_sh(ws: &[&str]) -> (String, String) {
     let data = payload(n, kv_n(ws, "pat"), per, kv_n(ws, "nl"));
     let src = kv(ws, "src").unwrap_or("file");
     let shape = kv(ws, "shape").unwrap_or("-");
-    let var = kv(ws, "kind") == Some("var");
+    let kind = kv(ws, "kind").unwrap_or("out");
+    let var = kind == "var";
+    let pro = kv_n(ws, "pro");
     let seed = kv_n(ws, "seed") as u64;
-    let Some(script) = build_script(src, shape, var, &data, per, seed) else {
+    let Some(script) = build_script(src, shape, kind, &data, per, seed) else {
         return ("bad-case".into(), "-".into());
     };
+    let Some(prologue) = PROLOGUES.get(pro) else {
+        return ("bad-case".into(), "-".into());
+    };
+    let script = format!("{prologue}{script}");
     // Rust-side statement of the property on this flow
     let mut want = data.clone();
     if matches!(src, "var" | "dbl" | "here") {
@@ -827,15 +883,21 @@ fn run_sh(ws: &[&str]) -> (String, String) {
             env.builtins.insert("gen", Builtin::new(Type::Mandatory, gen_main));
             env.builtins.insert("ycat", Builtin::new(Type::Mandatory, ycat_main));
         },
-        |env, _| env.variables.get_scalar("x").map(|s| s.as_bytes().to_vec()),
+        move |env, state| {
+            if var {
+                env.variables.get_scalar("x").map(|s| s.as_bytes().to_vec())
+            } else {
+                shell::read_file(state, "/out")
+            }
+        },
     );
     if out.stuck {
         return ("TIMEOUT".into(), "FAIL:deadlock".into());
     }
-    let got: Vec<u8> = if var {
-        value.flatten().unwrap_or_default()
-    } else {
+    let got: Vec<u8> = if kind == "out" {
         out.stdout.clone()
+    } else {
+        value.flatten().unwrap_or_default()
     };
     let mut obs = show_flow(&got);
     if !out.stderr.is_empty() || out.exit_status != 0 {
@@ -850,6 +912,98 @@ fn run_sh(ws: &[&str]) -> (String, String) {
             .position(|(a, b)| a != b)
             .unwrap_or(got.len().min(want.len()));
         format!("FAIL:data-differs-at-{at}(got {} want {})", got.len(), want.len())
+    };
+    (obs, oracle)
+}
+
+
+/// (ii-c) descriptor choreography: the same flows with `fdsnap` inside every child, under a
+/// descriptor-state prologue.  Observation: the children's descriptor tables + the value delivered.
+fn run_fd(ws: &[&str]) -> (String, String) {
+    let n = kv_n(ws, "n");
+    let data = payload(n, kv_n(ws, "pat"), 0, kv_n(ws, "nl"));
+    let form = kv(ws, "form").unwrap_or("subst");
+    let pro = kv_n(ws, "pro");
+    let Some(prologue) = PROLOGUES.get(pro) else {
+        return ("bad-case".into(), "-".into());
+    };
+    let pipeline = |k: usize| -> String {
+        let mut parts = vec!["{ fdsnap 0; gen\n}".to_string()];
+        for i in 1..k {
+            if i + 1 == k {
+                parts.push(format!("{{ fdsnap {i}; cat >/out\n}}"));
+            } else {
+                parts.push(format!("{{ fdsnap {i}; cat\n}}"));
+            }
+        }
+        parts.join(" | ")
+    };
+    // (script, value is in the variable x, expected value)
+    let trimmed = trim_nl(data.clone());
+    let mut trimmed_nl = trimmed.clone();
+    trimmed_nl.push(b'\n');
+    let (body, var, want) = match form {
+        "subst" => ("x=$( fdsnap 0; gen )".to_string(), true, trimmed.clone()),
+        "nest" => (
+            "x=$( fdsnap 0; echo \"$( fdsnap 1; gen )\" )".to_string(),
+            true,
+            trimmed.clone(),
+        ),
+        "pipe2" => (pipeline(2), false, data.clone()),
+        "pipe3" => (pipeline(3), false, data.clone()),
+        "pipe4" => (pipeline(4), false, data.clone()),
+        "substpipe" => (
+            "x=$( fdsnap 9; { fdsnap 0; gen\n} | { fdsnap 1; cat\n} )".to_string(),
+            true,
+            trimmed.clone(),
+        ),
+        "pipesubst" => (
+            "{ fdsnap 0; gen\n} | { fdsnap 1; x=$( fdsnap 2; cat ); echo \"$x\" >/out\n}".to_string(),
+            false,
+            trimmed_nl.clone(),
+        ),
+        _ => return ("bad-case".into(), "-".into()),
+    };
+    let script = format!("{prologue}{body}");
+    PAYLOAD.with(|p| *p.borrow_mut() = data.clone());
+    SNAPS.with(|m| m.borrow_mut().clear());
+    let mut config = Config::new(&script);
+    config.max_rounds = 400_000;
+    let (out, value) = shell::run_with(
+        config,
+        move |env, state| {
+            STATE.with(|st| *st.borrow_mut() = Some(Rc::clone(state)));
+            env.builtins.insert("gen", Builtin::new(Type::Mandatory, gen_main));
+            env.builtins.insert("fdsnap", Builtin::new(Type::Mandatory, fdsnap_main));
+        },
+        move |env, state| {
+            if var {
+                env.variables.get_scalar("x").map(|s| s.as_bytes().to_vec())
+            } else {
+                shell::read_file(state, "/out")
+            }
+        },
+    );
+    STATE.with(|st| *st.borrow_mut() = None);
+    if out.stuck {
+        return ("TIMEOUT".into(), "FAIL:deadlock".into());
+    }
+    let got: Vec<u8> = value.flatten().unwrap_or_default();
+    let snaps: Vec<String> = SNAPS.with(|m| {
+        m.borrow()
+            .iter()
+            .map(|(k, v)| format!("{k}={v}"))
+            .collect()
+    });
+    let mut obs = format!("{} {}", snaps.join(" "), show_flow(&got));
+    if !out.stderr.is_empty() || out.exit_status != 0 {
+        obs = format!("ERR(status={},stderr={}) {}", out.exit_status, out.stderr.len(), obs);
+    }
+    // the property statement, directly: the value arrives (which needs every child connected)
+    let oracle = if got == want {
+        "ok".to_string()
+    } else {
+        format!("FAIL:data(got {} want {})", got.len(), want.len())
     };
     (obs, oracle)
 }
@@ -905,9 +1059,15 @@ fn gen_sh(rng: &mut Rng, n: usize) -> String {
         "ch", "sh", "ycsy", "cscs",
     ];
     let shape = *rng.pick(&shapes);
-    let kind = if rng.chance(1, 2) { "var" } else { "out" };
+    // descriptor state of the shell when the flow starts: mostly all open
+    let pro = if rng.chance(1, 2) { 0 } else { 1 + rng.below(4) };
+    let kind = if pro == 2 || pro == 3 {
+        *rng.pick(&["var", "file"]) // standard output is closed
+    } else {
+        *rng.pick(&["var", "out", "file", "var"])
+    };
     format!(
-        "sh n={n} pat={pat} per=0 nl={nl} src={src} shape={shape} kind={kind} seed={}",
+        "sh n={n} pat={pat} per=0 nl={nl} src={src} shape={shape} kind={kind} pro={pro} seed={}",
         rng.below(1_000_000)
     )
 }
@@ -930,6 +1090,7 @@ fn run_case(case: &str) -> (String, String) {
     match ws.first() {
         Some(&"xfer") => run_xfer(&ws[1..]),
         Some(&"sh") => run_sh(&ws[1..]),
+        Some(&"fd") => run_fd(&ws[1..]),
         _ => run_ops(case),
     }
 }
@@ -988,6 +1149,24 @@ fn main() {
         let n = rng.below(4 * PIPE_SIZE + 3);
         let case = gen_xfer(&mut rng, n);
         run(&case, false);
+    }
+
+    // (ii-c) descriptor choreography: every prologue x every form x sizes
+    let forms = ["subst", "nest", "pipe2", "pipe3", "pipe4", "substpipe", "pipesubst"];
+    let fd_sizes: Vec<usize> = if thorough {
+        sizes.clone()
+    } else {
+        vec![0, 3, PIPE_BUF + 1, PIPE_SIZE, PIPE_SIZE + 1, 3 * PIPE_SIZE + 2]
+    };
+    for pro in 0..5 {
+        for form in forms {
+            for &n in &fd_sizes {
+                let pat = [0, 1, 5][rng.below(3)];
+                let nl = rng.below(3).min(n);
+                let case = format!("fd pro={pro} form={form} n={n} pat={pat} nl={nl}");
+                run(&case, false);
+            }
+        }
     }
 
     // (ii-b) shell-level flows
